@@ -54,6 +54,7 @@ type Violation struct {
 	Msg        string
 	Inputs     []NondetRec
 	Choices    []int
+	Schedule   []int
 	Region     string
 }
 
@@ -73,6 +74,7 @@ type ObsRec struct {
 type ConcRec struct {
 	Inputs   []NondetRec
 	Observed []ObsRec
+	Schedule []int
 }
 
 type Limits struct {
@@ -121,6 +123,7 @@ type Explorer struct {
 	start   time.Time
 	Verbose bool
 
+	Preempt    int // CONC: bound on preemptive context switches per path
 	Seed       int
 	ConcN      int // number of ok-paths whose model is replayed natively (concordance)
 	nextSample int
@@ -325,6 +328,8 @@ type Machine struct {
 	onSync      Value // harness environment hook run before every synchronisation operation of the main thread
 	inEnv       bool
 	onBlock     Value // harness hook run when no thread can run (terminal state)
+	preemptions  int
+	schedLog     []int // CONC: id of the thread chosen at every scheduling decision
 	terminalRuns int
 	progress     bool // some thread other than the hook ran since the hook last ran
 }
@@ -501,11 +506,39 @@ func (m *Machine) pickThread() *Thread {
 		return nil
 	}
 	if m.ex.Mode == "conc" {
-		if len(run) == 1 {
-			return run[0]
+		// preemption-bounded scheduling: the thread that just yielded may go on;
+		// switching away from it while it could continue costs one preemption
+		var opts []*Thread
+		curRunnable := false
+		for _, t := range run {
+			if t == m.cur {
+				curRunnable = true
+			}
 		}
-		k := m.Choose(len(run), "sched")
-		return run[k]
+		if curRunnable {
+			opts = append(opts, m.cur)
+			if m.preemptions < m.ex.Preempt {
+				for _, t := range run {
+					if t != m.cur {
+						opts = append(opts, t)
+					}
+				}
+			}
+		} else {
+			opts = run
+		}
+		k := 0
+		if len(opts) > 1 {
+			k = m.Choose(len(opts), "sched")
+		}
+		if curRunnable && opts[k] != m.cur {
+			m.preemptions++
+		}
+		if m.cur != nil {
+			m.cur.yielded = false
+		}
+		m.schedLog = append(m.schedLog, opts[k].ID)
+		return opts[k]
 	}
 	if m.cur != nil && m.runnable(m.cur) && !m.cur.yielded {
 		return m.cur
@@ -575,6 +608,30 @@ func (m *Machine) yield() {
 	}
 }
 
+// inLibrary: code of the package under test proper (not a harness file).
+func (m *Machine) inLibrary(fn *ssa.Function) bool {
+	if !m.inTarget(fn) {
+		return false
+	}
+	for f := fn; f != nil; f = f.Parent() {
+		if f.Pos() != token.NoPos {
+			name := m.prog.Fset.Position(f.Pos()).Filename
+			if i := strings.LastIndex(name, "/"); i >= 0 {
+				name = name[i+1:]
+			}
+			return !strings.HasPrefix(name, "zz_verif")
+		}
+		if o := f.Origin(); o != nil && o.Pos() != token.NoPos {
+			name := m.prog.Fset.Position(o.Pos()).Filename
+			if i := strings.LastIndex(name, "/"); i >= 0 {
+				name = name[i+1:]
+			}
+			return !strings.HasPrefix(name, "zz_verif")
+		}
+	}
+	return true
+}
+
 func (m *Machine) inTarget(fn *ssa.Function) bool {
 	for f := fn; f != nil; f = f.Parent() {
 		if f.Pkg != nil {
@@ -593,12 +650,12 @@ func (m *Machine) inTarget(fn *ssa.Function) bool {
 // performed directly by code of the package under test: inside library code
 // (e.g. context) locks may be held that a real second goroutine would wait for.
 func (m *Machine) syncPoint(at *frame) {
-	if m.onSync != nil && !m.inEnv && m.cur != nil && m.cur.ID == 0 && at != nil && m.inTarget(at.fn) {
+	if m.onSync != nil && !m.inEnv && m.cur != nil && m.cur.ID == 0 && at != nil && m.inLibrary(at.fn) {
 		m.inEnv = true
 		m.call(m.cur.top, token.NoPos, m.onSync, nil)
 		m.inEnv = false
 	}
-	if m.ex.Mode == "conc" && len(m.threads) > 1 {
+	if m.ex.Mode == "conc" && len(m.threads) > 1 && !m.inEnv && at != nil && m.inLibrary(at.fn) {
 		live := 0
 		for _, t := range m.threads {
 			if !t.done {
@@ -821,7 +878,7 @@ func (m *Machine) sampleConcordance() {
 	for i, o := range m.observed {
 		obs = append(obs, ObsRec{Tag: o.tag, Value: vals[i]})
 	}
-	ex.Res.Concordance = append(ex.Res.Concordance, ConcRec{Inputs: in, Observed: obs})
+	ex.Res.Concordance = append(ex.Res.Concordance, ConcRec{Inputs: in, Observed: obs, Schedule: append([]int(nil), m.schedLog...)})
 }
 
 func (m *Machine) violate(id, pos, msg string, inputs []NondetRec) {
@@ -849,7 +906,7 @@ func (m *Machine) violate(id, pos, msg string, inputs []NondetRec) {
 				}
 			}
 		}
-		m.ex.Res.Violations = append(m.ex.Res.Violations, Violation{Obligation: id, Pos: pos, Msg: msg, Inputs: inputs, Choices: m.choices()})
+		m.ex.Res.Violations = append(m.ex.Res.Violations, Violation{Obligation: id, Pos: pos, Msg: msg, Inputs: inputs, Choices: m.choices(), Schedule: append([]int(nil), m.schedLog...)})
 	}
 }
 
